@@ -67,6 +67,14 @@ Fixpoint env_links (m : amap env) : res (amap link) :=
   | (k, e) :: r => do l <- env_link e; do r' <- env_links r; Ok ((k, l) :: r')
   end.
 
+(* nesting depth of a link directory tree *)
+Fixpoint ld_depth (d : linkdir) : nat :=
+  match d with
+  | LinkDir _ subs =>
+      S ((fix go (l : list (str * linkdir)) : nat :=
+            match l with [] => O | (_, x) :: r => Nat.max (ld_depth x) (go r) end) subs)
+  end.
+
 Definition empty_link : link := mkLink [] [] [] [] [] [] [].
 
 (* the unsigned metadata object GetSummaryLink returns *)
